@@ -1,0 +1,41 @@
+//! Verification hooks. Compiled only with `--cfg compio_verif`; every hook is a
+//! no-op until a harness calls [`block`].
+
+use std::sync::atomic::{AtomicBool, AtomicU64, Ordering};
+
+const POINTS: usize = 4;
+static BLOCKED: [AtomicBool; POINTS] = [const { AtomicBool::new(false) }; POINTS];
+static ARRIVED: [AtomicU64; POINTS] = [const { AtomicU64::new(0) }; POINTS];
+
+/// `MailboxInner::send`: `is_closed()` returned false, `try_send` comes next.
+pub const SEND_CHECKED: usize = 1;
+/// `Receiver::drop`: the queue has been drained, the channels are about to be
+/// disconnected.
+pub const RECEIVER_DRAINED: usize = 2;
+
+/// A named point of the code; a thread reaching it waits while the point is blocked.
+pub fn sched_point(id: usize) {
+    if id >= POINTS {
+        return;
+    }
+    ARRIVED[id].fetch_add(1, Ordering::SeqCst);
+    while BLOCKED[id].load(Ordering::SeqCst) {
+        std::thread::yield_now();
+    }
+}
+
+/// Block (or unblock) a scheduling point.
+pub fn block(id: usize, on: bool) {
+    if id < POINTS {
+        BLOCKED[id].store(on, Ordering::SeqCst);
+    }
+}
+
+/// How many times the point was reached.
+pub fn arrived(id: usize) -> u64 {
+    if id < POINTS {
+        ARRIVED[id].load(Ordering::SeqCst)
+    } else {
+        0
+    }
+}
